@@ -32,6 +32,14 @@ class StopSentinel:  # pylint: disable=too-few-public-methods
     """
 
 
+class WorkerFailure:  # pylint: disable=too-few-public-methods
+    """The mapped function raised an exception inside of a worker thread.
+    """
+
+    def __init__(self, exception: BaseException) -> None:
+        self.exception: BaseException = exception
+
+
 class LazyPool:
     """Lazy version of `concurrent.futures.ThreadPoolExecutor.map`. Allows to
     iterate content of shards without reading all of them into memory if they
@@ -148,6 +156,10 @@ class LazyPool:
             if isinstance(next_result, StopSentinel):
                 self._active_threads -= 1
                 continue
+            if isinstance(next_result, WorkerFailure):
+                # Stop the workers and let the caller know.
+                self.finish_and_reset()
+                raise next_result.exception
 
             # New element to be processed. After the potentially finite
             # `iterator` we append an infinite number of `StopSentinel`s so the
@@ -215,5 +227,12 @@ class Collector(threading.Thread):
                 return
 
             # Can be blocking, but should be short.
-            self._results.put(self.func(element))
+            try:
+                result = self.func(element)
+            except BaseException as exc:  # pylint: disable=broad-exception-caught
+                # Do not die silently, the consumer would wait forever for the
+                # StopSentinel of this thread.
+                self._results.put(WorkerFailure(exc))  # type: ignore[arg-type]
+                continue
+            self._results.put(result)
             time.sleep(0.0)  # Give up GIL.
